@@ -19,6 +19,7 @@ METHODS = {'get', 'post', 'put', 'patch', 'delete', 'head', 'options'}
 # pass the guards must reach the body) and that cannot reach the body except through the function they wrap
 PASS_THROUGH = {'add_metadata_to_request', 'web_security_headers', 'web_security_headers_swagger', 'web_security_headers_login_page',
                 'catch_ui_error_in_dev', 'deprecated'}
+SQL_RE = re.compile(r'^\s*(SELECT\s+\S|INSERT\s+(IGNORE\s+)?INTO\s|UPDATE\s+\S+\s+SET\s|DELETE\s+FROM\s|CALL\s+\w+\s*\(|REPLACE\s+INTO\s)', re.I)
 OWNER_RE = re.compile(r'\bWHERE\b[^;]*?(?<![\w.`])(?:batches\.)?`?user`?\s*=\s*%s', re.I | re.S)
 
 
@@ -93,12 +94,11 @@ class Extract:
     def _first_sql_in(self, node, seen):
         events = []   # (lineno, col, kind, payload)
         for n in ast.walk(node):
-            if isinstance(n, ast.Constant) and isinstance(n.value, str) and re.search(
-                    r'^\s*(SELECT|INSERT|UPDATE|DELETE|CALL|REPLACE)\b', n.value, re.I):
+            if isinstance(n, ast.Constant) and isinstance(n.value, str) and SQL_RE.search(n.value):
                 events.append((n.lineno, n.col_offset, 'sql', n.value))
             elif isinstance(n, ast.JoinedStr):
                 txt = ''.join(v.value if isinstance(v, ast.Constant) else '{}' for v in n.values)
-                if re.search(r'^\s*(SELECT|INSERT|UPDATE|DELETE|CALL|REPLACE)\b', txt, re.I):
+                if SQL_RE.search(txt):
                     events.append((n.lineno, n.col_offset, 'sql', txt))
             elif isinstance(n, ast.Call) and isinstance(n.func, ast.Name) and n.func.id in self.funcs:
                 events.append((n.lineno, n.col_offset, 'call', n.func.id))
